@@ -2,6 +2,7 @@ use crate::common::*;
 
 pub mod c01;
 pub mod c02;
+pub mod c03;
 pub mod c07;
 pub mod c09;
 pub mod c10;
@@ -58,6 +59,7 @@ pub fn dispatch(id: &str, tier: Tier, replay: Option<&str>) -> i32 {
             c02::run_a(&rep, tier);
             rep
         }
+        "C03" => c03::run(tier),
         "C07" => c07::run(tier),
         "C08" => c08::run(tier),
         "C09" => c09::run(tier),
